@@ -794,7 +794,19 @@ dec_spec spec; dec_spec_for(&spec, dk, NULL); spec.file_size = file.n;
 		if (U.ret != LZMA_STREAM_END) { snprintf(key, sizeof(key), "unlimited-decode-failed|%s", d_names[dk]); hx_violation("C09", key, idx, "returned %s (dict %u)", lzma_ret_name(U.ret), dict); vbuf_free(&U.out); alloc_mon_destroy(&m0); vbuf_free(&file); vbuf_free(&pl); return; }
 		alloc_mon_destroy(&m0);
 		// limits around the need
-		uint64_t lims[8]; unsigned nl = 0;
+		uint64_t lims[14]; unsigned nl = 0;
+		uint64_t st_need = 0; unsigned first_threading_only = 99;
+		if (dk == D_STREAM_MT) {
+			// threading limits just above what ONE thread needs for the whole file: every Block fits, cached decoders
+			// and buffers of earlier Blocks have to go
+			dec_spec st0; dec_spec_for(&st0, D_STREAM, NULL); st0.flags = spec.flags;
+			alloc_mon ms0; alloc_mon_init(&ms0); limited S0; run_limited(&st0, &file, &ms0, &S0, false);
+			st_need = S0.peak; vbuf_free(&S0.out); alloc_mon_destroy(&ms0);
+			first_threading_only = nl;
+			static const uint32_t above[] = { 0, 70000, 300000, 700000, 1200000 };
+			for (unsigned k = 0; k < 5; ++k) lims[nl++] = st_need + above[k] + vrng_below(&r, 30000);
+		}
+		const unsigned last_threading_only = nl;
 		lims[nl++] = 1; lims[nl++] = need / 2 + 1; lims[nl++] = need > 70000 ? need - 40000 : 1; lims[nl++] = need; lims[nl++] = need + 1; lims[nl++] = need + (1u << 16); lims[nl++] = UINT64_MAX / 2;
 		lims[nl++] = 1 + vrng_below64(&r, need + 100000);
 		for (unsigned li = 0; li < nl; ++li) {
@@ -802,6 +814,7 @@ dec_spec spec; dec_spec_for(&spec, dk, NULL); spec.file_size = file.n;
 			dec_spec sp = spec;
 			sp.memlimit = lim;
 			if (dk == D_STREAM_MT) { sp.memlimit_threading = vrng_chance(&r, 1, 2) ? lim : UINT64_MAX; if (vrng_chance(&r, 1, 3)) { sp.memlimit_threading = lim; sp.memlimit = UINT64_MAX; } }
+			if (li >= first_threading_only && li < last_threading_only) { sp.memlimit_threading = lim; sp.memlimit = UINT64_MAX; hx_count("mt_threading_limit_just_above_single_thread_need", 1); }
 			alloc_mon m; alloc_mon_init(&m);
 			limited L; run_limited(&sp, &file, &m, &L, true);
 			hx_eval();
